@@ -200,6 +200,10 @@ class Gen:
                         a["callbacks"].append({"name": s, "src": "srcS.clear()"})
             out.append(a)
         ids = [a["id"] for a in out if not (len(a["props"]) == 1 and a["props"][0]["name"] == "separator" and not a["callbacks"])]
+        if len(ids) == len(out):
+            # the explicit list would equal the implicit one (all action children in order): written in another order, or not at all,
+            # so that whether the binding took effect can be seen in the .ui
+            ids = list(reversed(ids)) if len(ids) >= 2 else []
         if ids and rng.random() < 0.4:
             parent["props"].append({"name": "actions", "kind": "expr", "src": "[%s]" % ", ".join(ids), "w": 0, "r": 0, "const": 1, "conv": 1, "ret": 1, "what": "pseudo",
                                     "action_ids": ids})
